@@ -289,8 +289,48 @@ func runCaseWith(c *CaseDesc, build func(*caseRun) *nject.Collection) []string {
 		}
 		r.logf("t ret %s", fmtVals(readVals(typesOf(outC), res)))
 	}
+	if afterOpsHook != nil {
+		afterOpsHook(r, coll, invT)
+	}
 	r.logf("end")
 	return r.lines
+}
+
+// afterOpsHook, when set, is called after the ops of a case that bound, with the collection and the invoke type
+var afterOpsHook func(r *caseRun, coll *nject.Collection, invT reflect.Type)
+
+// secondBindWithInit binds the SAME collection object a second time, now with an (argument-less) init function: a
+// different chain (it has an init function), whose own Debugging value must describe it.  Logs "second bind", the
+// dumps of that bind, and whatever the bodies log while init and one invocation run.
+func secondBindWithInit(r *caseRun, coll *nject.Collection, invT reflect.Type) {
+	if r.c.HasInit {
+		return
+	}
+	r.logf("second bind")
+	invPtr := reflect.New(invT)
+	var ini func()
+	var dumps []nject.VerifDump
+	nject.SetVerifHooks(func(d nject.VerifDump) {
+		if d.Real {
+			dumps = append(dumps, d)
+		}
+	}, nil)
+	var err error
+	s := guarded(10*time.Second, func() { err = coll.Bind(invPtr.Interface(), &ini) })
+	nject.SetVerifHooks(nil, nil)
+	if s != "" || err != nil {
+		r.logf("second bind failed")
+		return
+	}
+	for _, d := range dumps {
+		r.dumpLines(d)
+	}
+	if s := guarded(10*time.Second, func() {
+		ini()
+		invPtr.Elem().Call(mkValues(r.c.InvIn, opArgs(0, r.c.InvIn)))
+	}); s != "" {
+		r.logf("second bind run %s", s)
+	}
 }
 
 // runEditPair runs a case with named edits and then the same providers written by hand in the
